@@ -68,6 +68,15 @@ func newVC23Store() *vc23Store {
 func (s *vc23Store) serve(exec *execCtx) (*object.Object, io.ReadCloser, error) {
 	id := exec.address().Object()
 	if si, ok := s.virt[id]; ok {
+		if exec.headOnly() && !exec.isRaw() {
+			// shard.Head: the header of a virtual object is the parent header of its
+			// last part or link object when one of them is stored here
+			for _, cid := range []oid.ID{si.GetLastPart(), si.GetLink()} {
+				if c, ok := s.objs[cid]; ok && c.Parent() != nil {
+					return c.Parent(), nil, nil
+				}
+			}
+		}
 		return nil, nil, object.NewSplitInfoError(si)
 	}
 	obj, ok := s.objs[id]
@@ -166,7 +175,15 @@ type vc23Layout struct {
 	parent   *object.Object   // header (no payload) of the requested object
 	children []*object.Object // physical children in order (nil for whole)
 	link     *object.Object   // nil for whole
-	bounds   []uint64         // cumulative right bounds of children / EC data parts
+	bounds   []uint64         // cumulative right bounds of children / EC data parts (incl. those of nested children)
+	outer    []uint64         // cumulative right bounds of the direct children only
+	nested   map[int]*vc23Layout // direct children that are split objects themselves (not stored physically)
+}
+
+// vc23Nested describes how a direct child is split itself.
+type vc23Nested struct {
+	ver   int
+	sizes []int
 }
 
 type vc23CapWriter struct{ objs []*object.Object }
@@ -239,6 +256,7 @@ func vc23Slice(payload []byte, limit uint64, nAttr int) (*vc23Layout, error) {
 		acc += uint64(len(c.Payload()))
 		l.bounds = append(l.bounds, acc)
 	}
+	l.outer = l.bounds
 	return l, nil
 }
 
@@ -256,6 +274,52 @@ func vc23Handmade(ver int, payload []byte, sizes []int, nAttr int) (*vc23Layout,
 	par.SetVersion(&cur)
 	par.SetCreationEpoch(10)
 	par.SetType(object.TypeRegular)
+	return vc23HandmadeFrom(ver, par, payload, sizes, nil)
+}
+
+func vc23HandmadeNested(ver int, payload []byte, sizes []int, nAttr int, nested map[int]vc23Nested) (*vc23Layout, error) {
+	cur := version.Current()
+	par := vc23RootHeader(nAttr)
+	par.SetVersion(&cur)
+	par.SetCreationEpoch(10)
+	par.SetType(object.TypeRegular)
+	return vc23HandmadeFrom(ver, par, payload, sizes, nested)
+}
+
+// vc23GenNested picks 1..2 non-last children (of >= 2 bytes) to be split objects themselves.
+func vc23GenNested(t *rapid.T, sizes []int) map[int]vc23Nested {
+	var cand []int
+	for i := 0; i < len(sizes)-1; i++ {
+		if sizes[i] >= 2 {
+			cand = append(cand, i)
+		}
+	}
+	if len(cand) == 0 {
+		return nil
+	}
+	res := map[int]vc23Nested{}
+	for range rapid.IntRange(1, 2).Draw(t, "nNested") {
+		i := cand[rapid.IntRange(0, len(cand)-1).Draw(t, "nestedIdx")]
+		parts := rapid.IntRange(2, min(4, sizes[i])).Draw(t, "nestedParts")
+		var in []int
+		left := sizes[i]
+		for k := 0; k < parts-1; k++ {
+			sz := rapid.IntRange(1, left-(parts-1-k)).Draw(t, "nestedChunk")
+			in = append(in, sz)
+			left -= sz
+		}
+		in = append(in, left)
+		res[i] = vc23Nested{ver: rapid.IntRange(1, 2).Draw(t, "nestedVer"), sizes: in}
+	}
+	return res
+}
+
+// vc23HandmadeFrom splits the object with the prepared header par (no payload,
+// ID or signature yet). Children listed in nested are split objects themselves
+// (what a node produces when a client uploads an oversized child of its own
+// split chain through a session): they are not stored, their pieces are.
+func vc23HandmadeFrom(ver int, par object.Object, payload []byte, sizes []int, nested map[int]vc23Nested) (*vc23Layout, error) {
+	cur := version.Current()
 	parNoID := par // first V2 child carries the parent header without ID/signature/sizes
 	par.SetPayload(payload)
 	if err := vc23Finish(&par); err != nil {
@@ -311,7 +375,22 @@ func vc23Handmade(ver int, payload []byte, sizes []int, nAttr int) (*vc23Layout,
 				c.SetParent(parHdr)
 			}
 		}
-		if err := vc23Finish(c); err != nil {
+		if ns, ok := nested[i]; ok {
+			chunk := c.Payload()
+			c.SetPayload(nil)
+			sub, err := vc23HandmadeFrom(ns.ver, *c, chunk, ns.sizes, nil)
+			if err != nil {
+				return nil, err
+			}
+			if l.nested == nil {
+				l.nested = map[int]*vc23Layout{}
+			}
+			l.nested[i] = sub
+			c = sub.parent
+			for _, b := range sub.bounds[:len(sub.bounds)-1] {
+				l.bounds = append(l.bounds, acc+b)
+			}
+		} else if err := vc23Finish(c); err != nil {
 			return nil, err
 		}
 		ids = append(ids, c.GetID())
@@ -321,6 +400,7 @@ func vc23Handmade(ver int, payload []byte, sizes []int, nAttr int) (*vc23Layout,
 		measured = append(measured, m)
 		acc += uint64(sz)
 		l.bounds = append(l.bounds, acc)
+		l.outer = append(l.outer, acc)
 		l.children = append(l.children, c)
 	}
 	if off != len(payload) {
@@ -657,7 +737,11 @@ func TestVerifC23Split(t *testing.T) {
 			if len(sizes) < 2 {
 				sizes = []int{n / 2, n - n/2}
 			}
-			lay, err = vc23Handmade(2, payload, sizes, nAttr)
+			var nested map[int]vc23Nested
+			if rapid.IntRange(0, 2).Draw(t, "withNested") == 0 {
+				nested = vc23GenNested(t, sizes)
+			}
+			lay, err = vc23HandmadeNested(2, payload, sizes, nAttr, nested)
 		default: // V1
 			var sizes []int
 			if rapid.Bool().Draw(t, "v1Uniform") {
@@ -668,7 +752,11 @@ func TestVerifC23Split(t *testing.T) {
 			if len(sizes) < 2 {
 				sizes = []int{n / 2, n - n/2}
 			}
-			lay, err = vc23Handmade(1, payload, sizes, nAttr)
+			var nested map[int]vc23Nested
+			if rapid.IntRange(0, 2).Draw(t, "withNested") == 0 {
+				nested = vc23GenNested(t, sizes)
+			}
+			lay, err = vc23HandmadeNested(1, payload, sizes, nAttr, nested)
 		}
 		if err != nil {
 			t.Fatalf("build layout: %v", err)
@@ -696,7 +784,40 @@ func TestVerifC23Split(t *testing.T) {
 			put(lay.children[0], where("whereWhole"))
 		} else {
 			for i, c := range lay.children {
-				put(c, where(fmt.Sprintf("where%d", i)))
+				sub, ok := lay.nested[i]
+				if !ok {
+					put(c, where(fmt.Sprintf("where%d", i)))
+					continue
+				}
+				// a nested split child: its whole subtree lives on the same node(s), which
+				// therefore know its split info and can serve its header (shard.Head)
+				w := where(fmt.Sprintf("whereNested%d", i))
+				nsi := object.NewSplitInfo()
+				if sub.kind == "v1" {
+					nsi.SetSplitID(sub.children[0].SplitID())
+				} else {
+					nsi.SetFirstPart(sub.children[0].GetID())
+				}
+				for _, g := range sub.children {
+					put(g, w)
+				}
+				switch rapid.SampledFrom([]string{"link+last", "link-only", "last-only"}).Draw(t, "nestedLinkMode") {
+				case "link+last":
+					nsi.SetLink(sub.link.GetID())
+					nsi.SetLastPart(sub.children[len(sub.children)-1].GetID())
+					put(sub.link, w)
+				case "link-only":
+					nsi.SetLink(sub.link.GetID())
+					put(sub.link, w)
+				default:
+					nsi.SetLastPart(sub.children[len(sub.children)-1].GetID())
+				}
+				if w != 1 {
+					local.virt[c.GetID()] = nsi
+				}
+				if w != 0 {
+					remote.virt[c.GetID()] = nsi
+				}
 			}
 			si := object.NewSplitInfo()
 			if lay.kind == "v1" {
@@ -748,6 +869,9 @@ func TestVerifC23Split(t *testing.T) {
 		nq := rapid.IntRange(1, 8).Draw(t, "nq")
 		for i := 0; i < nq; i++ {
 			q := vc23GenQuery(t, uint64(n), lay.bounds)
+			if len(lay.nested) > 0 && q.Mode != common.PayloadRangeModeNone && rapid.Bool().Draw(t, "aimAtNested") {
+				vc23AimAtNested(t, lay, &q)
+			}
 			off, ln, oor := vc23Expect(q, uint64(n))
 			cross := 0
 			if !oor {
@@ -769,17 +893,23 @@ func TestVerifC23Split(t *testing.T) {
 			if !allLocal {
 				labels = append(labels, "mixed-placement")
 			}
-			if len(lay.children) > 0 && lay.kind != "whole" && len(lay.bounds) > 1 && lay.bounds[0] != lay.bounds[1]-lay.bounds[0] {
+			if len(lay.children) > 0 && lay.kind != "whole" && len(lay.outer) > 1 && lay.outer[0] != lay.outer[1]-lay.outer[0] {
 				labels = append(labels, "nonuniform")
 			}
-			rec.Case(cross > 0, fmt.Sprintf("%s|%v|%s|%s", lay.kind, lay.bounds, linkMode, q), labels...)
+			if len(lay.nested) > 0 {
+				labels = append(labels, "nested-virtual-child")
+				if !oor && ln > 0 && vc23NestedPartial(lay, off, ln) {
+					labels = append(labels, "nested-virtual-child&partial")
+				}
+			}
+			rec.Case(cross > 0, fmt.Sprintf("%s|%v|%v|%s|%s", lay.kind, lay.bounds, vc23NestedIdx(lay), linkMode, q), labels...)
 			if rec.WantSample() && cross > 0 {
 				rec.Sample(map[string]any{"kind": lay.kind, "bounds": lay.bounds, "link": linkMode, "query": q.String()})
 			}
 
 			w, err := vc23Run(svc, addr, q)
 			if msg := vc23Check(q, w, err, payload, lay.parent); msg != "" {
-				t.Fatalf("C23 violation: %s\nlayout=%s children=%v link=%s allLocal=%t\nquery=%s", msg, lay.kind, vc23ChildSizes(lay), linkMode, allLocal, q)
+				t.Fatalf("C23 violation: %s\nlayout=%s children=%v nested=%s link=%s allLocal=%t\nquery=%s", msg, lay.kind, vc23ChildSizes(lay), vc23NestedDesc(lay), linkMode, allLocal, q)
 			}
 		}
 	})
@@ -788,9 +918,91 @@ func TestVerifC23Split(t *testing.T) {
 func vc23ChildSizes(l *vc23Layout) []int {
 	var r []int
 	for _, c := range l.children {
-		r = append(r, len(c.Payload()))
+		r = append(r, int(c.PayloadSize()))
 	}
 	return r
+}
+
+// vc23AimAtNested rewrites the positions of q so that the range starts or ends
+// strictly inside a nested split child and reaches into a neighbouring child.
+func vc23AimAtNested(t *rapid.T, l *vc23Layout, q *vc23Query) {
+	idx := vc23NestedIdx(l)
+	i := idx[rapid.IntRange(0, len(idx)-1).Draw(t, "aimIdx")]
+	var start uint64
+	if i > 0 {
+		start = l.outer[i-1]
+	}
+	end := l.outer[i] // nested children are never the last ones
+	inside := start + uint64(rapid.IntRange(1, int(end-start)-1).Draw(t, "aimInside"))
+	size := l.outer[len(l.outer)-1]
+	var from, to uint64 // [from, to)
+	if i > 0 && rapid.Bool().Draw(t, "aimTail") {
+		from = uint64(rapid.IntRange(0, int(start)-1).Draw(t, "aimFrom"))
+		to = inside
+	} else {
+		from = inside
+		to = end + uint64(rapid.IntRange(1, int(size-end)).Draw(t, "aimTo"))
+	}
+	switch q.Mode {
+	case common.PayloadRangeModeOffsetLength:
+		q.A, q.B = from, to-from
+	case common.PayloadRangeModeBounds:
+		q.A, q.B = from, to-1
+	case common.PayloadRangeModeFrom:
+		q.A = inside
+	case common.PayloadRangeModeSuffix:
+		q.A = size - inside
+	}
+}
+
+func vc23NestedIdx(l *vc23Layout) []int {
+	var r []int
+	for i := range l.children {
+		if _, ok := l.nested[i]; ok {
+			r = append(r, i)
+		}
+	}
+	return r
+}
+
+func vc23NestedDesc(l *vc23Layout) string {
+	var b strings.Builder
+	for _, i := range vc23NestedIdx(l) {
+		fmt.Fprintf(&b, "#%d:%s%v ", i, l.nested[i].kind, vc23ChildSizes(l.nested[i]))
+	}
+	return b.String()
+}
+
+// vc23NestedPartial reports whether [off, off+ln) spans >= 2 direct children and
+// its first or last touched child is a nested split object covered only partly.
+func vc23NestedPartial(l *vc23Layout, off, ln uint64) bool {
+	first, last := -1, -1
+	var left uint64
+	for i, right := range l.outer {
+		if right > off && left < off+ln {
+			if first < 0 {
+				first = i
+			}
+			last = i
+		}
+		left = right
+	}
+	if first < 0 || first == last {
+		return false
+	}
+	start := func(i int) uint64 {
+		if i == 0 {
+			return 0
+		}
+		return l.outer[i-1]
+	}
+	if _, ok := l.nested[first]; ok && off > start(first) {
+		return true
+	}
+	if _, ok := l.nested[last]; ok && off+ln < l.outer[last] {
+		return true
+	}
+	return false
 }
 
 // TestVerifC23Engine repeats the split check with the REAL storage engine as the
